@@ -1,7 +1,7 @@
-"""C16 witnesses.  The recorded findings of C16 are exercised by harness/c16.py itself (finding_witnesses); they are
-registered here as corpus witnesses only once the maintainer has merged findings_proposed/C16.txt into
-KNOWN_FINDINGS.txt (an unlisted failing witness would otherwise be reported as a violation).  The regression
-witnesses below must pass."""
+"""C16 witnesses.  The recorded findings of C16 (`finding` lines of KNOWN_FINDINGS.txt) are exercised by
+harness/c16.py (finding_witnesses) and registered here under their ids: they are expected to fail while the defect
+is there.  The regression witnesses below — among them the witnesses of the two repaired defects (`fixed:` entries
+a7b547e lcd-bg-no-body, c0beb1f lcd-region-end-zero) — must pass."""
 import os, re
 from fractions import Fraction
 from witnesses import witness
@@ -65,3 +65,37 @@ def _():
         if e.get_region() is not None and e.get_region() not in regs: return "dangling region reference"
         if any(p not in (SP.Color, SP.TextAlign) for p in e.iter_styles()): return f"style left on {type(e).__name__}: {list(e.iter_styles())}"
     if before != [texts(t) for t in ts]: return "text timeline changed"
+
+
+@witness("C16", "lcd-bg-no-body")
+def _():
+    import ttconv.model as m, ttconv.style_properties as s
+    from ttconv.filters.doc.lcd import LCDDocFilter, LCDDocFilterConfig
+    d = m.ContentDocument(); r = m.Region("r0", d); d.put_region(r)
+    try:
+        LCDDocFilter(LCDDocFilterConfig(bg_color=s.NamedColors.red.value, color=s.NamedColors.blue.value)).process(d)
+    except Exception as e:
+        return f"document without body, bg_color=red: {type(e).__name__}: {e}"
+    if d.get_body() is not None or [x.get_id() for x in d.iter_regions()] != ["r0"]: return "document changed shape"
+
+
+@witness("C16", "lcd-region-end-zero")
+def _():
+    import ttconv.model as m
+    from ttconv.isd import ISD
+    from ttconv.filters.doc.lcd import LCDDocFilter, LCDDocFilterConfig
+    for first_is_dead in (True, False):
+        d = m.ContentDocument(); rs = []
+        for i in range(2):
+            r = m.Region(f"r{i}", d); d.put_region(r); rs.append(r)
+        dead, live = (rs[0], rs[1]) if first_is_dead else (rs[1], rs[0])
+        dead.set_end(Fraction(0))
+        b = m.Body(d); d.set_body(b)
+        for reg, txt in ((live, "shown"), (dead, "never")):
+            dv = m.Div(d); dv.set_region(reg); b.push_child(dv); p = m.P(d); dv.push_child(p); sp = m.Span(d); p.push_child(sp); sp.push_child(m.Text(d, txt))
+        def texts(t): return sorted(e.get_text() for r in ISD.from_model(d, t).iter_regions() for e in r.dfs_iterator() if isinstance(e, m.Text))
+        before = [texts(t) for t in (0, 1)]
+        LCDDocFilter(LCDDocFilterConfig()).process(d)
+        if len(list(d.iter_regions())) != 2: return f"region with end=0 merged with an always-active one (dead region first: {first_is_dead})"
+        after = [texts(t) for t in (0, 1)]
+        if before != after or before != [["shown"], ["shown"]]: return f"visible text before {before}, after {after}"
